@@ -29,11 +29,11 @@ CONST = [A('a'), A('b'), I(1), I(7), NIL]
 def plan(tier, seed):
     if tier == 'quick':
         return {'n': 20000, 'deadline': 150,
-                'floor': {'distinct_nontrivial': 4000, 'outer_first_orders': 6000, 'values_checked_after_close': 30000,
+                'floor': {'side_goals_in_the_middle': 1, 'distinct_nontrivial': 4000, 'outer_first_orders': 6000, 'values_checked_after_close': 30000,
                           'to_python_checked': 30000, 'api_cases': 3000, 'compiled_cases': 8000,
                           'findall_exports': 1500, 'assert_exports': 1500}}
     return {'n': 400000, 'deadline': 540,
-            'floor': {'distinct_nontrivial': 80000, 'outer_first_orders': 100000, 'values_checked_after_close': 600000,
+            'floor': {'side_goals_in_the_middle': 1, 'distinct_nontrivial': 80000, 'outer_first_orders': 100000, 'values_checked_after_close': 600000,
                       'to_python_checked': 600000, 'api_cases': 60000, 'compiled_cases': 150000,
                       'findall_exports': 30000, 'assert_exports': 30000}}
 
